@@ -367,17 +367,32 @@ func c07Adversary(p *C07Plan, res *Result, src, dst *Store, br *BuiltRepo, toSen
 			return
 		}
 		writeCommit(child)
-		recv := apiutils.NewObjectReceiver(dst, [][]byte{child.Sum}, logr.Discard())
-		pr, err := packfile.NewPackfileReader(io.NopCloser(bytes.NewReader(buf.Bytes())))
-		if err != nil {
-			res.Invalid("%v", err)
-			return
+		// the same stream against three want lists: the child alone; the child and
+		// its missing parents (the session is then cut after the child, or the peer
+		// simply sent them in the wrong order); every commit of the transfer
+		wantsChildParents := [][]byte{child.Sum}
+		for _, par := range child.Parents {
+			if _, ok := sending[string(par)]; ok {
+				wantsChildParents = append(wantsChildParents, par)
+			}
 		}
-		_, err = recv.Receive(pr, nil)
-		_, stored := dst.Raw("com/" + string(child.Sum))
-		if err == nil || stored {
-			res.Violate("orphan-commit-accepted", "a commit whose parent is missing was accepted (err=%v, stored=%v)", err, stored)
-			return
+		var wantsAll [][]byte
+		for _, c := range toSend {
+			wantsAll = append(wantsAll, c.Sum)
+		}
+		for vi, wants := range [][][]byte{{child.Sum}, wantsChildParents, wantsAll} {
+			recv := apiutils.NewObjectReceiver(dst, wants, logr.Discard())
+			pr, err := packfile.NewPackfileReader(io.NopCloser(bytes.NewReader(buf.Bytes())))
+			if err != nil {
+				res.Invalid("%v", err)
+				return
+			}
+			_, err = recv.Receive(pr, nil)
+			_, stored := dst.Raw("com/" + string(child.Sum))
+			if err == nil || stored {
+				res.Violate("orphan-commit-accepted", "a commit whose parent is missing was accepted (want list variant %d of child / child+parents / all; err=%v, stored=%v)", vi, err, stored)
+				return
+			}
 		}
 		res.probe("adversary_child_first", 1)
 		res.Nontrivial = true
